@@ -1,15 +1,21 @@
 // c33: non-terminating program shapes compiled WITH abort checks (as the REPL does).
 //
-//	-extra shapes   "id\tS <source>\t<tags> gate=<bool>"
-//	-extra static   every BytecodeFunction of every shape: "<shape>#k\tF <dump>\t<tags>"
-//	-extra dyn      -input <file with S lines> -delay <ms>: run each program in-process on a fresh
-//	                vm.Thread whose Aborter is cancelled after <delay> ms; print
+//	-extra shapes   "id\tS <source>\t<tags> gate=<bool>"  (cfgx.GridShapes: covering design + random
+//	                cells up to -n, then the special shapes; -n 0 = covering design only)
+//	-extra static   every BytecodeFunction of every program of -input ("id\tS <source>[\t<tags>]"; a line
+//	                without id is named corpus<k>), preceded by the generated shapes when -n > 0:
+//	                "<shape>#k\tF <dump>;origin=<shape>\t<tags>"
+//	-extra dyn      -input <file with "id\tS <source>" lines> -delay <ms>: run each program in-process on
+//	                a fresh vm.Thread whose Aborter is cancelled after <delay> ms; print
 //	                "id\tS <source>\t<outcome> cancel_to_return_ms=<t>"; outcome is one of
 //	                aborted | finished-before-cancel | other-error <class> | hang | go-panic <msg> |
-//	                rejected <diag>
+//	                rejected <diag>.  The process stops after the first outcome that is not
+//	                aborted/rejected (a hung interpreter goroutine keeps spinning): the caller re-submits
+//	                the programs that got no line.
 package main
 
 import (
+	"bufio"
 	"context"
 	"flag"
 	"fmt"
@@ -95,6 +101,47 @@ func classify(err value.Value, pan string, okword string, ms int64) string {
 	return "other-error " + err.Class().Name + suffix
 }
 
+type inCase struct{ id, src, tags string }
+
+// readCases keeps the ids of the input lines ("id\tS src[\ttags]"; "S src" alone gets corpus<k>)
+func readCases(path string) []inCase {
+	if path == "" {
+		return nil
+	}
+	f, err := os.Open(path)
+	if err != nil {
+		return nil
+	}
+	defer f.Close()
+	var out []inCase
+	sc := bufio.NewScanner(f)
+	sc.Buffer(make([]byte, 1<<20), 1<<26)
+	k := 0
+	for sc.Scan() {
+		l := strings.TrimRight(sc.Text(), "\r\n")
+		if l == "" || strings.HasPrefix(l, "#") {
+			continue
+		}
+		p := strings.Split(l, "\t")
+		c := inCase{id: fmt.Sprintf("corpus%d", k), tags: "corpus"}
+		switch {
+		case len(p) >= 2 && strings.HasPrefix(p[1], "S "):
+			c.id, c.src = p[0], p[1]
+			if len(p) >= 3 {
+				c.tags = p[2]
+			}
+		case strings.HasPrefix(p[0], "S "):
+			c.src = p[0]
+		default:
+			continue
+		}
+		c.src = strings.ReplaceAll(c.src[2:], "\\n", "\n")
+		k++
+		out = append(out, c)
+	}
+	return out
+}
+
 func main() {
 	o := hx.ParseFlags()
 	defer hx.Flush()
@@ -102,17 +149,17 @@ func main() {
 	r := hx.NewRng(o.Seed)
 	switch o.Extra {
 	case "shapes":
-		for _, s := range cfgx.Shapes(r, o.N) {
+		for _, s := range cfgx.GridShapes(r, o.N) {
 			hx.Emit(s.ID, "S "+esc(s.Src), fmt.Sprintf("%s gate=%v", s.Tags, s.Gate))
 		}
 	case "static":
 		seen := map[*vm.BytecodeFunction]bool{}
-		shapes := cfgx.Shapes(r, o.N)
-		for i, in := range hx.ReadInputs(o.Input) {
-			if strings.HasPrefix(in, "S ") {
-				shapes = append([]cfgx.Shape{{ID: fmt.Sprintf("corpus%d", i), Tags: "corpus", Gate: true,
-					Src: strings.ReplaceAll(in[2:], "\\n", "\n")}}, shapes...)
-			}
+		var shapes []cfgx.Shape
+		for _, c := range readCases(o.Input) {
+			shapes = append(shapes, cfgx.Shape{ID: c.id, Tags: c.tags, Gate: true, Src: c.src})
+		}
+		if o.N > 0 {
+			shapes = append(shapes, cfgx.GridShapes(r, o.N)...)
 		}
 		for _, s := range shapes {
 			fn, diag, pan := cfgx.Compile(s.ID, s.Src, true)
@@ -131,9 +178,11 @@ func main() {
 			})
 		}
 	case "dyn":
-		for i, in := range hx.ReadInputs(o.Input) {
-			if strings.HasPrefix(in, "S ") {
-				hx.Emit(fmt.Sprintf("d%d", i), in, runDyn(strings.ReplaceAll(in[2:], "\\n", "\n")))
+		for _, c := range readCases(o.Input) {
+			res := runDyn(c.src)
+			hx.Emit(c.id, "S "+esc(c.src), res)
+			if !strings.HasPrefix(res, "aborted") && !strings.HasPrefix(res, "rejected") {
+				break
 			}
 		}
 		hx.Flush()
